@@ -136,10 +136,17 @@ def r3(ctx, rep):
     m = ctx.m
     R3 = rep.rule('C01.R3', 'only the reviewed engine sites append/extend/tick/close a branch; _nodes is appended only in Branch.append')
     n = 0
+    allowed = None
     for mod, qn, fn in astq.iter_functions(m):
         if mod.startswith('pytableaux.web') or mod.startswith('pytableaux.tools.doc'):
             continue
         sites = []
+        if allowed is None:
+            # private helper methods called only from a reviewed site belong to it
+            allowed = set(ALLOWED_MUTATION_SITES)
+            for (amod, aqn) in list(ALLOWED_MUTATION_SITES):
+                if '.' in aqn:
+                    allowed |= {(amod, q) for q in astq.helper_closure(m, amod, aqn.rsplit('.', 1)[0], {aqn})}
         for c in astq.calls(fn, nested=False):
             f = c.func
             if isinstance(f, ast.Attribute) and f.attr in BRANCH_MUTATORS and is_branch_receiver(astq.u(f.value)):
@@ -150,7 +157,7 @@ def r3(ctx, rep):
         for s in sites:
             n += 1
             inside_branch = mod == COMMON and qn.startswith('Branch.')
-            ok = inside_branch or (mod, qn) in ALLOWED_MUTATION_SITES
+            ok = inside_branch or (mod, qn) in allowed
             rep.instance(R3, ok=ok, sample=dict(site=f'{mod}:{qn}', stmt=astq.u(s)[:60]), nontrivial=(mod, qn))
             if not ok:
                 rep.finding(R3, f'C01.R3/{mod}:{qn}', m.loc(mod, s), qn,
@@ -214,7 +221,7 @@ def r4(ctx, rep):
             base = MBranch(['n0', 'n1'])
             snapshot = list(base.nodes)
             created = []
-            tableau = Obj('tableau')
+            tableau = Obj('tableau', __srcclass__=(m, ClassRef(TAB, 'Tableau')))
             tableau.add = lambda branch: created.append(branch)
             tableau.branch = lambda parent=None: it.call(tb, [tableau], dict(parent=parent)) if parent is not None else it.call(tb, [tableau])
             adds = tuple(tuple(f'g{i}n{j}' for j in range(2)) for i in range(ngroups))
@@ -223,7 +230,7 @@ def r4(ctx, rep):
                 pass
             target = Tgt(adds=adds)
             target.branch, target.node = base, 'n1'
-            helper = Obj('adz', tableau=tableau, rule=Obj('rule', ticking=ticking))
+            helper = Obj('adz', __srcclass__=(m, ClassRef(HELPERS, 'AdzHelper')), tableau=tableau, rule=Obj('rule', ticking=ticking))
             try:
                 it.call(fn, [helper, target])
             except Raised as e:
